@@ -46,20 +46,26 @@ theorem C19_gantt_sections (title : Option Str) (weekends : Bool) (tick : Option
   obtain ⟨hi, _, hs, he⟩ := hid t h
   exact ⟨(hn t h).1, hi.1, hi.2.1, hs.1, hs.2.1, he.2.1⟩
 
-/-- PARTIAL: the network source has exactly one edge per dependency and one Start edge per task without predecessors
-    when no task name contains a brace or a line break (finding KF-R1: a name containing `}} --> 7{{x` adds an edge) -/
-theorem C19_network_partial (all : Nat → NTask) (tasks : List Nat)
-    (hn : ∀ i, OneLine (all i).name ∧ '{' ∉ (all i).name ∧ '}' ∉ (all i).name)
+/-- the network source has exactly one edge per dependency and one Start edge per task without predecessors, whatever
+    single-line text the names contain — braces included: the renderer writes them as `#123;` / `#125;`, so the label of
+    a node never contains a brace (finding KF-R1, repaired).  The labels read are the escaped ones (`escLabel`); they
+    are not claimed to be decoded back (`escLabel` is not injective: "{" and "#123;" give the same label). -/
+theorem C19_network (all : Nat → NTask) (tasks : List Nat)
+    (hn : ∀ i, OneLine (all i).name)
     (hid : ∀ i, (∀ c ∈ (all i).idText, c.isDigit ∨ c = '-') ∧ (all i).idText ≠ [])
     (hst : ∀ i ∈ tasks, (all i).style = none) :
     readNetwork (networkSrc all tasks) = expectedEdges all tasks := by
   exact readNetwork_ok all tasks hn hid hst
 
-/-- the full statement fails: a task name can add an edge -/
-theorem C19_network_full_fails :
+/-- the label of a node contains no brace, whatever the name -/
+theorem C19_escLabel_noBrace (s : Str) : '{' ∉ escLabel s ∧ '}' ∉ escLabel s :=
+  ⟨lbrace_notin_escLabel s, rbrace_notin_escLabel s⟩
+
+/-- the former attack name `a}} --> 7{{x` (KF-R1) no longer adds an edge: the source reads back as the two real edges -/
+theorem C19_network_example :
     let all : Nat → NTask := fun i => if i = 0 then { idText := lit "1", name := lit "a}} --> 7{{x", preds := [], style := none }
                                        else { idText := lit "2", name := lit "b", preds := [0], style := none }
-    readNetwork (networkSrc all [0, 1]) ≠ expectedEdges all [0, 1] := by
+    readNetwork (networkSrc all [0, 1]) = expectedEdges all [0, 1] ∧ (readNetwork (networkSrc all [0, 1])).length = 2 := by
   decide +kernel
 
 /-- DHTMLX data: progress lies within 0..1 -/
